@@ -139,7 +139,7 @@ Proof. unfold add_child. proj_solve. Qed.
 #[export] Hint Rewrite g0_add_child : sess.
 Lemma g0_set_parent_twice pr c p : g0 (set_parent_twice pr c p) = g0 pr.
 Proof. unfold set_parent_twice. proj_solve. Qed.
-Lemma g0_signal pr u t v : g0 (signal_component_changed pr u t v) = g0 pr.
+Lemma g0_signal pr u t v ch : g0 (signal_component_changed pr u t v ch) = g0 pr.
 Proof. unfold signal_component_changed. proj_solve. Qed.
 #[export] Hint Rewrite g0_set_parent_twice g0_signal : sess.
 
